@@ -1,4 +1,7 @@
 import GBProofs.ContractionLaws
+import GBProofs.BlockContraction
+import GBProofs.ArrayContraction
+import GBProofs.ArrayContraction14
 /-!
 # C13 — contractions behave as the linear combinations they denote
 
@@ -9,6 +12,20 @@ through which every integral and evaluation block of the model is formed):
 split in two with the coefficient shared), `contract_linear_real` (linearity of un-normalised blocks),
 `normalised_scale_pos` / `normalised_scale_neg` (a column scaled by `c > 0` is unchanged after
 normalisation, by `c < 0` flips sign).
+
+`BlockContraction.lean` lifts the laws to the model's **blocks** (what the arrays are made of), for `overlapBlock`, `kineticBlock`,
+`momentBlock`, `pointChargeBlock`, `momentumBlock`, `angmomBlock`, `evalBlock` and all four slots of `eriBlock`, with the shell
+operations `Shell.column`, `Shell.permPrims`, `Shell.splitPrim`, `Shell.scaleColumn`: `…_column` (a column of a generalized shell
+gives the block of the single-column shell), `…_permPrims`, `…_splitPrim` (block unchanged), `…_scaleColumn` (raw block scaled
+in that column only) and, with the contraction norms, `…_normalised_scaleColumn_pos / _neg / _other` (unchanged / sign flipped
+/ other columns untouched).  Each law is proved once for a slot-linear block former (`SlotLinear`, `PrimLocal`).
+
+`ArrayContraction*.lean` state the property for the **assembled arrays** (what the user sees): `Basis.splitColumns b i` replaces shell `i`
+by its single-column shells, and `Basis.splitColumns_locate` shows that every basis index names the same function before and after;
+`overlap_/kinetic_/moment_/pointCharge_/momentum_/angmom_flat_splitColumns` are equalities of the whole flat arrays, likewise
+`…_permPrims`, `…_splitPrim`, `…_scaleColumn_pos`; `…_scaleColumn_neg` gives the factor `colSign · colSign` (−1 exactly on the functions of
+the scaled column).  `ArrayContraction14` does the same for the one-index evaluation arrays (`eval_flat_…`) and the four-index
+repulsion array (`eri_flat_…`, four `colSign` factors).  Generic cores: `entry2_replaced_of_blocks`, `entry1_replaced`, `entry4_replaced`.
 -/
 namespace GB.C13
 
@@ -16,5 +33,11 @@ namespace GB.C13
 theorem scale_sign (c x ov : ℝ) (hov : 0 < ov) (hc : c ≠ 0) :
     c * x * (1 / Real.sqrt (c * c * ov)) = (c / |c|) * (x * (1 / Real.sqrt ov)) :=
   scale_norm c x ov hov hc
+
+alias generalized_shell_is_its_columns := overlap_flat_splitColumns
+alias primitive_order_immaterial := overlap_flat_permPrims
+alias primitive_split_immaterial := overlap_flat_splitPrim
+alias positive_scale_immaterial := overlap_flat_scaleColumn_pos
+alias negative_scale_flips_sign := overlap_array_scaleColumn_neg
 
 end GB.C13
